@@ -37,6 +37,7 @@ def impl_objs():
         u = Util.__new__(Util)
         r = VideoReader.__new__(VideoReader)      # built without opening a video (no VideoGear)
         r.stop_evt = threading.Event(); r.cond = None
+        cv2.setNumThreads(1)      # tiny images: the thread pool only costs time (and starves parallel checks)
         _state.update(np=np, cv2=cv2, Frame=Frame, Util=Util, u=u, vr=r, parse_size=parse_size, adict=adict)
     return _state
 
@@ -276,17 +277,19 @@ def cap_area(w, h, W, H, limit):
     return w, h, W, H
 
 
-def gen_size(rng, limit):
+def gen_size(rng, limit, unc):
     w, h = gen_dims(rng); W, H = gen_bounds(rng, w, h)
-    if rng.random() < 0.97: w, h, W, H = cap_area(w, h, W, H, limit)
-    return {'k': 'size', 'action': rng.choice(SIZES[1:] + SIZES), 'aspect': rng.random() < 0.75, 'interp': rng.choice([None, None, None, 'N', 'L', 'C']),
+    big = rng.random() < unc          # a few cases at full 4096-per-side cost
+    if not big: w, h, W, H = cap_area(w, h, W, H, limit)
+    return {'k': 'size', 'action': rng.choice(SIZES[1:] + SIZES), 'aspect': rng.random() < 0.75, 'interp': None if big else rng.choice([None, None, None, 'N', 'L', 'C']),
             'w': w, 'h': h, 'W': W, 'H': H}
 
 
-def gen_vsize(rng, limit):
+def gen_vsize(rng, limit, unc):
     w, h = gen_dims(rng); W, H = gen_bounds(rng, w, h)
-    if rng.random() < 0.97: w, h, W, H = cap_area(w, h, W, H, limit)
-    return {'k': 'vsize', 'mode': rng.choice(['maxsize', 'resize']), 'aspect': rng.random() < 0.75, 'interp': rng.choice([None, None, None, 'N', 'L', 'C']),
+    big = rng.random() < unc
+    if not big: w, h, W, H = cap_area(w, h, W, H, limit)
+    return {'k': 'vsize', 'mode': rng.choice(['maxsize', 'resize']), 'aspect': rng.random() < 0.75, 'interp': None if big else rng.choice([None, None, None, 'N', 'L', 'C']),
             'w': w, 'h': h, 'W': W, 'H': H}
 
 
@@ -376,42 +379,42 @@ def model_req(c):
     return {'op': 'c17.chain', 'w': c['w'], 'h': c['h'], 'fmt': c['fmt'], 'px': c['px'], 'boxexact': bool(c.get('boxexact', True)), 'xforms': [x['m'] for x in c['xf']]}
 
 
-def run(ctx):
-    logging.disable(logging.CRITICAL)
-    res, rng = ctx.result, ctx.rng
-    s = impl_objs()
+def case_stream(ctx):
+    rng = ctx.rng
     if ctx.replay:
-        cases = [ctx.replay['case']] if ctx.replay.get('case') else []
-    else:
-        cases = [c['case'] if 'case' in c else c for c in ctx.corpus]
-        cases += [{'k': 'size', 'action': 'maxsize', 'aspect': True, 'interp': None, 'w': w, 'h': h, 'W': W, 'H': H}
-                  for (w, h, W, H) in [(49, 49, 1, 1), (1000, 1, 10, 10), (1, 4, 18, 3), (98, 98, 2, 2), (3, 3, 1, 1)]]
-        cases += [{'k': 'vsize', 'mode': m, 'aspect': True, 'interp': None, 'w': w, 'h': h, 'W': W, 'H': H}
-                  for m, (w, h, W, H) in [('resize', (100, 50, 200, 50)), ('resize', (100, 50, 100, 80)), ('resize', (100, 50, 30, 40)), ('resize', (1000, 1, 10, 10)),
-                                          ('resize', (98, 98, 2, 2)), ('maxsize', (49, 49, 1, 1)), ('maxsize', (1000, 1, 10, 10))]]
-        N = 16 if ctx.thorough else (11 if ctx.escalate else 9)
-        rngN = range(1, N + 1)
-        for w in rngN:
-            for h in rngN:
-                for W in rngN:
-                    for H in rngN:
-                        for asp in (True, False):
-                            for a in SIZES:
-                                if a == 'resize' and not asp: continue
-                                cases.append({'k': 'size', 'action': a, 'aspect': asp, 'interp': None, 'w': w, 'h': h, 'W': W, 'H': H})
-                            for m in ('maxsize', 'resize'):
-                                if m == 'resize' and not asp and (w + h + W + H) % 4: continue
-                                cases.append({'k': 'vsize', 'mode': m, 'aspect': asp, 'interp': None, 'w': w, 'h': h, 'W': W, 'H': H})
-        nsz, nvs, nch, nbig, nid = (150000, 100000, 40000, 4000, 400000) if ctx.thorough else ((30000, 20000, 6000, 600, 60000) if ctx.escalate else (12000, 8000, 2500, 250, 30000))
-        limit = 4096 * 4096 if ctx.thorough else 600 * 600
-        cases += [gen_size(rng, limit) for _ in range(nsz)]
-        cases += [gen_vsize(rng, limit) for _ in range(nvs)]
-        cases += [gen_chain(rng) for _ in range(nch)]
-        cases += [gen_chain(rng, big=True) for _ in range(nbig)]
-        cases += [gen_idiom(rng) for _ in range(nid)]
-        res.extra['malformed_xform_strings'] = malformed_stats(rng, 300)
+        if ctx.replay.get('case'): yield ctx.replay['case']
+        return
+    for c in ctx.corpus: yield c['case'] if 'case' in c else c
+    for (w, h, W, H) in [(49, 49, 1, 1), (1000, 1, 10, 10), (1, 4, 18, 3), (98, 98, 2, 2), (3, 3, 1, 1)]:
+        yield {'k': 'size', 'action': 'maxsize', 'aspect': True, 'interp': None, 'w': w, 'h': h, 'W': W, 'H': H}
+    for m, (w, h, W, H) in [('resize', (100, 50, 200, 50)), ('resize', (100, 50, 100, 80)), ('resize', (100, 50, 30, 40)), ('resize', (1000, 1, 10, 10)),
+                            ('resize', (98, 98, 2, 2)), ('maxsize', (49, 49, 1, 1)), ('maxsize', (1000, 1, 10, 10))]:
+        yield {'k': 'vsize', 'mode': m, 'aspect': True, 'interp': None, 'w': w, 'h': h, 'W': W, 'H': H}
+    N = 16 if ctx.thorough else (11 if ctx.escalate else 9)
+    rngN = range(1, N + 1)
+    for w in rngN:
+        for h in rngN:
+            for W in rngN:
+                for H in rngN:
+                    for asp in (True, False):
+                        for a in SIZES:
+                            if a == 'resize' and not asp: continue
+                            yield {'k': 'size', 'action': a, 'aspect': asp, 'interp': None, 'w': w, 'h': h, 'W': W, 'H': H}
+                        for m in ('maxsize', 'resize'):
+                            if m == 'resize' and not asp and (w + h + W + H) % 4: continue
+                            yield {'k': 'vsize', 'mode': m, 'aspect': asp, 'interp': None, 'w': w, 'h': h, 'W': W, 'H': H}
+    nsz, nvs, nch, nbig, nid = (150000, 100000, 40000, 4000, 400000) if ctx.thorough else ((30000, 20000, 6000, 600, 60000) if ctx.escalate else (12000, 8000, 2500, 250, 30000))
+    limit, unc = (1500 * 1500, 0.01) if ctx.thorough else (500 * 500, 0.004)
+    for _ in range(nsz): yield gen_size(rng, limit, unc)
+    for _ in range(nvs): yield gen_vsize(rng, limit, unc)
+    for _ in range(nch): yield gen_chain(rng)
+    for _ in range(nbig): yield gen_chain(rng, big=True)
+    for _ in range(nid): yield gen_idiom(rng)
 
-    dist, branches, rho = {}, {}, {'exact-integer-products': 0, 'came-out-one-lower': 0}
+
+def process(ctx, cases, st):
+    res = ctx.result
+    dist, branches, rho = st['dist'], st['branches'], st['rho']
     impl, viols, parse_err = [], [], []
     for c in cases:
         k = c['k']
@@ -442,7 +445,7 @@ def run(ctx):
         k = c['k']
         nontriv = True
         for key, what in v:
-            res.violations.append(Violation(key, what, c))
+            if len(res.violations) < 20000: res.violations.append(Violation(key, what, c))
         ok = None
         if model is not None:
             m = model[i]
@@ -466,11 +469,24 @@ def run(ctx):
                     e['w'] == o['w'] and e['h'] == o['h'] and e['fmt'] == o['fmt'] and (e['px'] is None or e['px'] == o['px']) for e in m['set'])
                 if ok and o['px'] is not None and any(e['px'] is not None for e in m['set']): branches['chain:pixels-compared'] = branches.get('chain:pixels-compared', 0) + 1
             if ok: res.traces_validated += 1
-            else:
+            elif len(res.disagreements) < 2000:
                 mm = m if 'err' in m else (m.get('set') or m)
-                if isinstance(mm, list) and len(mm) > 4: mm = mm[:4]
                 res.disagreements.append({'point': 'c17.' + k + (':parse' if parse_err[i] else ''), 'case': c, 'impl': parse_err[i] or o, 'model': mm})
         res.note(c, nontriv)
-    res.extra['input_distribution'] = dist
-    res.extra['model_branches'] = branches
-    res.extra['rounding_choices'] = rho
+
+
+def run(ctx):
+    logging.disable(logging.CRITICAL)
+    res = ctx.result
+    impl_objs()
+    st = {'dist': {}, 'branches': {}, 'rho': {'exact-integer-products': 0, 'came-out-one-lower': 0}}
+    buf = []
+    for c in case_stream(ctx):
+        buf.append(c)
+        if len(buf) >= 50000:
+            process(ctx, buf, st); buf = []
+    if buf: process(ctx, buf, st)
+    if not ctx.replay: res.extra['malformed_xform_strings'] = malformed_stats(ctx.rng, 300)
+    res.extra['input_distribution'] = st['dist']
+    res.extra['model_branches'] = st['branches']
+    res.extra['rounding_choices'] = st['rho']
